@@ -68,6 +68,8 @@ func classifyErr(msg string) string {
 		return "nomacro"
 	case has("recursion is detected"):
 		return "recursion"
+	case has(jerr.IncludeDirectiveErr):
+		return "include-jsight"
 	case has(jerr.DirectiveNotAllowed):
 		return "notallowed"
 	}
